@@ -51,13 +51,14 @@ import (
 )
 
 var (
-	flagProp = flag.String("prop", "C06", "C06|C09 (selects the property checker and the scenario mix)")
-	flagSeed = flag.Int64("seed", 1, "PRNG seed")
-	flagTier = flag.String("tier", "quick", "quick|thorough")
-	flagOut  = flag.String("out", ".", "output directory")
-	flagN    = flag.Int("n", 0, "histories per scenario group (0 = tier default)")
-	flagOnly = flag.String("only", "", "run only this scenario group")
-	flagDbg  = flag.Bool("debug", false, "print every step to stderr")
+	flagProp  = flag.String("prop", "C06", "C06|C09 (selects the property checker and the scenario mix)")
+	flagSeed  = flag.Int64("seed", 1, "PRNG seed")
+	flagTier  = flag.String("tier", "quick", "quick|thorough")
+	flagOut   = flag.String("out", ".", "output directory")
+	flagN     = flag.Int("n", 0, "histories per scenario group (0 = tier default)")
+	flagOnly  = flag.String("only", "", "run only this scenario group")
+	flagDbg   = flag.Bool("debug", false, "print every step to stderr")
+	flagSleep = flag.Bool("sleep", false, "also run the real-sleep batch (always on in thorough)")
 )
 
 const watchdog = 8 * time.Second
@@ -849,6 +850,89 @@ func setFsizeLimit(n int64) (restore func()) {
 	}
 }
 
+// playSleepBatch validates the ageing hook: histories in which the clock really advances
+// (time.Sleep) and (*Proxy).VerifAge is never called. The histories are interleaved so that
+// the whole batch costs three sleeps.
+func playSleepBatch(en *env, meta *emit.Meta) (terms []string, rds []map[string]any) {
+	cfg := pcfg{pol: freshlib.Policy{Default: 4 * time.Second}}
+	en.setCfg(cfg)
+	en.shift = 0
+	type variant struct {
+		tag, lm string
+		script  [][]string // per round
+	}
+	vars := []variant{
+		{"none", "none", [][]string{nil, nil, nil, nil}},
+		{"strong", "none", [][]string{nil, nil, nil, nil}},
+		{"none", "imf", [][]string{nil, nil, nil, nil}},
+		{"weak", "rfc850", [][]string{nil, {"200"}, nil, nil}},
+		{"strong", "imf", [][]string{nil, {"404"}, nil, {"304"}}},
+		{"none", "none", [][]string{nil, {"304"}, nil, {"304"}}},
+	}
+	type hist struct {
+		path  string
+		rs    *resource
+		items []string
+		rd    []any
+		start time.Time
+		last  time.Time
+	}
+	hs := make([]*hist, len(vars))
+	for i, v := range vars {
+		c := content{Version: 1, Salt: i, TagKind: v.tag, LMKind: v.lm, BodyLen: 12, CC: []string{"max-age=2"},
+			LM: time.Now().Add(-time.Hour).Truncate(time.Second), Exp: freshlib.Expires{Kind: freshlib.ExpAbsent, Form: "absent"}}
+		hs[i] = &hist{path: fmt.Sprintf("/sleep/h%d", i), rs: &resource{cur: c}}
+		en.mu.Lock()
+		en.res[hs[i].path] = hs[i].rs
+		en.mu.Unlock()
+	}
+	round := func(k int) {
+		for i, v := range vars {
+			h := hs[i]
+			h.rs.mu.Lock()
+			h.rs.script, h.rs.given, h.rs.reqs, h.rs.onFirst = v.script[k], nil, nil, nil
+			h.rs.mu.Unlock()
+			now := en.vnow()
+			if h.start.IsZero() {
+				h.start, h.last = now, now
+			}
+			o := en.request("GET", h.path, nil)
+			h.rs.mu.Lock()
+			o.ups = append([]e2elib.OriginRequest{}, h.rs.reqs...)
+			gv := append([]given{}, h.rs.given...)
+			h.rs.mu.Unlock()
+			h.items = append(h.items, "IAdvance "+emit.Z(int64(now.Sub(h.last))))
+			h.last = now
+			answers := make([]string, len(gv))
+			ga := make([]any, len(gv))
+			for j, g := range gv {
+				answers[j] = g.coq(0)
+				ga[j] = g.readable()
+			}
+			h.items = append(h.items, fmt.Sprintf("IRequest (Build_request GET []) %s (Build_faults false false false RgOk) %s", emit.List(answers), o.coq(0)))
+			h.rd = append(h.rd, map[string]any{"request": "GET", "real_sleep": true, "origin_answers": ga,
+				"seen": map[string]any{"status": o.status, "version": o.version, "x_cache": o.xcache, "etag": o.etag, "origin_requests": len(o.ups)}})
+			meta.Count("x_cache_real_sleep", o.xcache)
+		}
+	}
+	round(0)                            // stored, lifetime 2 s
+	time.Sleep(4500 * time.Millisecond) // stale
+	// the replacement of history 3 is a new version with a lifetime far from the later probes
+	hs[3].rs.mu.Lock()
+	hs[3].rs.cur.Version, hs[3].rs.cur.CC = 2, []string{"max-age=10"}
+	hs[3].rs.mu.Unlock()
+	round(1)                            // revalidated: 304 renews by the default (4 s), 200 replaces, 404 is relayed
+	time.Sleep(1500 * time.Millisecond) // inside the renewed lifetime
+	round(2)
+	time.Sleep(5000 * time.Millisecond) // beyond it
+	round(3)
+	for _, h := range hs {
+		terms = append(terms, fmt.Sprintf("PC %s %s %s", cfg.coq(), freshlib.NanosZ(h.start), emit.List(h.items)))
+		rds = append(rds, map[string]any{"scenario": "real-sleep", "backend": en.sc.backend, "path": h.path, "config": cfg.readable(), "steps": h.rd})
+	}
+	return
+}
+
 func main() {
 	flag.Parse()
 	e2elib.Quiet()
@@ -945,6 +1029,15 @@ func main() {
 			meta.Record(g.sc.name+path, interesting, rd)
 		}
 		restore()
+		if (*flagTier == "thorough" || *flagSleep) && (g.sc.name == "memory" || g.sc.name == "file") {
+			ts, rds := playSleepBatch(en, meta)
+			for i, t := range ts {
+				terms = append(terms, t)
+				total++
+				meta.Count("scenario", "real-sleep-"+g.sc.backend)
+				meta.Record("sleep"+g.sc.name+strconv.Itoa(i), true, rds[i])
+			}
+		}
 		en.e.Close()
 	}
 	for _, t := range terms {
